@@ -172,88 +172,104 @@ def check(ctx):
     rep.require(cg is not None, 'get_result_item: closest_genomes not passed')
     st = c03.stmt_of(fn, items[0])
     res = c03.Resolver(fn)
-    lf = list_form(ctx, fi, res, cg, st)
-    iv = lf['var']
-    rep.add('Q4', fi.site(lf['node']), 'no entry is filtered out of the list', not lf['filters'], expected='no filter', found=lf['filters'], stmt='list filter')
-    it, it_at = res.top(lf['iter'], lf['iter_at'])
-    # Q4: prefix slice
-    sliced = isinstance(it, ast.Subscript) and isinstance(it.slice, ast.Slice)
-    if sliced:
-        sl = it.slice
-        up = res.text(sl.upper, it_at) if sl.upper is not None else None
-        okp = sl.lower is None and sl.step is None and up == f'{params}.report_closest'
-        rep.add('Q4', fi.site(lf['node']), 'the list is the first report_closest entries of the ordered indices', okp, expected=f'[:{params}.report_closest]', found=u(it.slice), stmt='prefix slice')
-        inner, inner_at = res.top(it.value, it_at)
-    else:
-        # no slice: a located deviation only when the iterable IS an ordering the rule understands (then nothing truncates it); a selection
-        # helper the rule cannot read (a top-N fast path, a heap) is outside its vocabulary - undecided, not a violation
-        if isinstance(it, ast.Call):
-            probe, desc0 = ordering_is_stable(c03.strip_copies(res.deep(it, it_at)), dists)
-            if probe is None:
-                # a selection helper of the package: an index selection that is arbitrary at ties (argpartition, an argsort that is not
-                # stable, heapq on indices) anywhere in it is a located deviation - membership / order of equidistant genomes then depends
-                # on the algorithm; a helper without such a primitive is simply beyond this rule
-                hq = m.resolve_call(fi, it)
-                hfi = m.functions.get(hq or '')
-                bad_prims = []
-                seen_h = set()
+    def structural_list():
+        lf = list_form(ctx, fi, res, cg, st)
+        iv = lf['var']
+        rep.add('Q4', fi.site(lf['node']), 'no entry is filtered out of the list', not lf['filters'], expected='no filter', found=lf['filters'], stmt='list filter')
+        it, it_at = res.top(lf['iter'], lf['iter_at'])
+        # Q4: prefix slice
+        sliced = isinstance(it, ast.Subscript) and isinstance(it.slice, ast.Slice)
+        if sliced:
+            sl = it.slice
+            up = res.text(sl.upper, it_at) if sl.upper is not None else None
+            okp = sl.lower is None and sl.step is None and up == f'{params}.report_closest'
+            rep.add('Q4', fi.site(lf['node']), 'the list is the first report_closest entries of the ordered indices', okp, expected=f'[:{params}.report_closest]', found=u(it.slice), stmt='prefix slice')
+            inner, inner_at = res.top(it.value, it_at)
+        else:
+            # no slice: a located deviation only when the iterable IS an ordering the rule understands (then nothing truncates it); a selection
+            # helper the rule cannot read (a top-N fast path, a heap) is outside its vocabulary - undecided, not a violation
+            if isinstance(it, ast.Call):
+                probe, desc0 = ordering_is_stable(c03.strip_copies(res.deep(it, it_at)), dists)
+                if probe is None:
+                    # a selection helper of the package: an index selection that is arbitrary at ties (argpartition, an argsort that is not
+                    # stable, heapq on indices) anywhere in it is a located deviation - membership / order of equidistant genomes then depends
+                    # on the algorithm; a helper without such a primitive is simply beyond this rule
+                    hq = m.resolve_call(fi, it)
+                    hfi = m.functions.get(hq or '')
+                    bad_prims = []
+                    seen_h = set()
 
-                def prims(hf, depth=0):
-                    if hf.qualname in seen_h or depth > 2:
+                    def prims(hf, depth=0):
+                        if hf.qualname in seen_h or depth > 2:
+                            return
+                        seen_h.add(hf.qualname)
+                        for c in calls_in(hf.node):
+                            nm = callee_attr(c) or callee(c) or ''
+                            full = u(c.func)
+                            if nm == 'argpartition' or full in ('heapq.nsmallest', 'heapq.nlargest', 'nsmallest', 'nlargest'):
+                                bad_prims.append((hf, c, f'{full}: which of several equidistant entries is selected is unspecified'))
+                            elif nm == 'argsort':
+                                kind = get_kw(c, 'kind')
+                                if not (isinstance(kind, ast.Constant) and kind.value in STABLE_KINDS):
+                                    bad_prims.append((hf, c, f'{u(c)[:50]}: not a stable sort'))
+                            tgt = m.functions.get(m.resolve_call(hf, c) or '')
+                            if tgt is not None and tgt.module.kind == 'py':
+                                prims(tgt, depth + 1)
+                    if hfi is not None:
+                        prims(hfi)
+                    for hf, c, why in bad_prims:
+                        rep.add('Q1', hf.site(c), 'the indices of the closest genomes are selected and ordered by (distance, reference position) for every tie pattern', False,
+                                expected="np.argsort(dists, kind='stable')[:N] or an equivalent the rule can read", found=why, stmt=c, construct=hf.qualname)
+                    if bad_prims:
                         return
-                    seen_h.add(hf.qualname)
-                    for c in calls_in(hf.node):
-                        nm = callee_attr(c) or callee(c) or ''
-                        full = u(c.func)
-                        if nm == 'argpartition' or full in ('heapq.nsmallest', 'heapq.nlargest', 'nsmallest', 'nlargest'):
-                            bad_prims.append((hf, c, f'{full}: which of several equidistant entries is selected is unspecified'))
-                        elif nm == 'argsort':
-                            kind = get_kw(c, 'kind')
-                            if not (isinstance(kind, ast.Constant) and kind.value in STABLE_KINDS):
-                                bad_prims.append((hf, c, f'{u(c)[:50]}: not a stable sort'))
-                        tgt = m.functions.get(m.resolve_call(hf, c) or '')
-                        if tgt is not None and tgt.module.kind == 'py':
-                            prims(tgt, depth + 1)
-                if hfi is not None:
-                    prims(hfi)
-                for hf, c, why in bad_prims:
-                    rep.add('Q1', hf.site(c), 'the indices of the closest genomes are selected and ordered by (distance, reference position) for every tie pattern', False,
-                            expected="np.argsort(dists, kind='stable')[:N] or an equivalent the rule can read", found=why, stmt=c, construct=hf.qualname)
-                if bad_prims:
-                    return
-                raise Undecided(f'get_result_item: the ordered indices come from a construct outside the vocabulary: {u(it)[:80]}')
-        rep.add('Q4', fi.site(lf['node']), 'the list is truncated to report_closest entries', False, expected=f'[:{params}.report_closest]', found=u(it), stmt='prefix slice')
-        inner, inner_at = it, it_at
-    rep.require(isinstance(inner, ast.Call), f'get_result_item: ordering expression is not a call: {u(inner)}')
-    rep.call_sites += 1
-    # sorting must see the whole row (slice applied after ordering)
-    inner_r = c03.strip_copies(res.deep(inner, inner_at))
-    rep.require(not res.unknown, f'get_result_item: locals whose value cannot be traced to one expression feed the ordering: {sorted(set(res.unknown))}')
-    sub_in_args = [a for a in inner_r.args if isinstance(a, ast.Subscript) and isinstance(a.slice, ast.Slice)]
-    rep.add('Q4', fi.site(inner), 'ordering is applied to the whole distance row (truncation comes after)', not sub_in_args, expected='whole row', found=[u(a) for a in sub_in_args], stmt='order before slice')
-    verdict, desc = ordering_is_stable(inner_r, dists)
-    if verdict is None:
-        raise Undecided(f'get_result_item: ordering construct outside the vocabulary: {desc}')
-    rep.add('Q1', fi.site(inner), 'closest_genomes is ordered by a stable ascending sort of the distance row (ties in reference order, identical on every machine)', verdict,
-            expected="np.argsort(dists, kind='stable') | lexsort | sorted(range(n), key=...)", found=f'{u(inner)}: {desc}', stmt=inner)
-    # Q3: the element, with every local replaced by its value (a genome / a distance bound to a local first is the same genome / distance)
-    e = c03.strip_copies(res.deep(lf['elt'], lf['at']))
-    rep.require(not res.unknown, f'get_result_item: locals whose value cannot be traced to one expression feed the list entries: {sorted(set(res.unknown))}')
-    okq = isinstance(e, ast.Call) and m.resolve_call(fi, e) == 'gambit.classify.GenomeMatch'
-    rep.require(okq, f'get_result_item: list element is not a GenomeMatch: {u(e)}')
-    g = get_arg(e, 0, 'genome')
-    d_ = get_arg(e, 1, 'distance')
-    rep.add('Q3', fi.site(lf['elt']), 'each entry pairs genome and distance through the one ordered index', u(g) == f'{db}.genomes[{iv}]' and u(d_) == f'{dists}[{iv}]', expected=f'GenomeMatch({db}.genomes[{iv}], {dists}[{iv}])',
-            found=u(e), stmt='entry pairing')
-    mt = get_arg(e, 2, 'matched_taxon')
-    explicit = isinstance(mt, ast.Call) and m.resolve_call(fi, mt) == 'gambit.classify.matching_taxon' and [u(a) for a in mt.args] == [f'{u(g)}.taxon', u(d_)] and not mt.keywords
-    rep.add('Q3', fi.site(lf['elt']), "each entry's taxon is what its own distance alone would assign: the default, or matching_taxon(its genome's taxon, its distance) passed explicitly", mt is None or explicit,
-            expected=f'matched_taxon left to its default, or matching_taxon({u(g)}.taxon, {u(d_)})', found=u(mt) if mt not in (None, Ellipsis) else mt, stmt='entry taxon')
-    # the genomes classified and the genomes listed are the same sequence
-    cls_calls = [c for c in calls_in(fn) if m.resolve_call(fi, c) == 'gambit.classify.classify']
-    cls_args = [u(c03.strip_copies(res.deep(a, c03.stmt_of(fn, cls_calls[0])))) for a in cls_calls[0].args[:2]] if len(cls_calls) == 1 else None
-    rep.add('Q3', fi.site(cls_calls[0] if cls_calls else lf['elt']), 'classification and the list index the same genome sequence and the same distance row',
-            cls_args == [f'{db}.genomes', dists], expected=f'classify({db}.genomes, {dists})', found=cls_args if cls_args is not None else [u(c)[:60] for c in cls_calls], stmt='shared operands')
+                    raise Undecided(f'get_result_item: the ordered indices come from a construct outside the vocabulary: {u(it)[:80]}')
+            rep.add('Q4', fi.site(lf['node']), 'the list is truncated to report_closest entries', False, expected=f'[:{params}.report_closest]', found=u(it), stmt='prefix slice')
+            inner, inner_at = it, it_at
+        rep.require(isinstance(inner, ast.Call), f'get_result_item: ordering expression is not a call: {u(inner)}')
+        rep.call_sites += 1
+        # sorting must see the whole row (slice applied after ordering)
+        inner_r = c03.strip_copies(res.deep(inner, inner_at))
+        rep.require(not res.unknown, f'get_result_item: locals whose value cannot be traced to one expression feed the ordering: {sorted(set(res.unknown))}')
+        sub_in_args = [a for a in inner_r.args if isinstance(a, ast.Subscript) and isinstance(a.slice, ast.Slice)]
+        rep.add('Q4', fi.site(inner), 'ordering is applied to the whole distance row (truncation comes after)', not sub_in_args, expected='whole row', found=[u(a) for a in sub_in_args], stmt='order before slice')
+        verdict, desc = ordering_is_stable(inner_r, dists)
+        if verdict is None:
+            raise Undecided(f'get_result_item: ordering construct outside the vocabulary: {desc}')
+        rep.add('Q1', fi.site(inner), 'closest_genomes is ordered by a stable ascending sort of the distance row (ties in reference order, identical on every machine)', verdict,
+                expected="np.argsort(dists, kind='stable') | lexsort | sorted(range(n), key=...)", found=f'{u(inner)}: {desc}', stmt=inner)
+        # Q3: the element, with every local replaced by its value (a genome / a distance bound to a local first is the same genome / distance)
+        e = c03.strip_copies(res.deep(lf['elt'], lf['at']))
+        rep.require(not res.unknown, f'get_result_item: locals whose value cannot be traced to one expression feed the list entries: {sorted(set(res.unknown))}')
+        okq = isinstance(e, ast.Call) and m.resolve_call(fi, e) == 'gambit.classify.GenomeMatch'
+        rep.require(okq, f'get_result_item: list element is not a GenomeMatch: {u(e)}')
+        g = get_arg(e, 0, 'genome')
+        d_ = get_arg(e, 1, 'distance')
+        rep.add('Q3', fi.site(lf['elt']), 'each entry pairs genome and distance through the one ordered index', u(g) == f'{db}.genomes[{iv}]' and u(d_) == f'{dists}[{iv}]', expected=f'GenomeMatch({db}.genomes[{iv}], {dists}[{iv}])',
+                found=u(e), stmt='entry pairing')
+        mt = get_arg(e, 2, 'matched_taxon')
+        explicit = isinstance(mt, ast.Call) and m.resolve_call(fi, mt) == 'gambit.classify.matching_taxon' and [u(a) for a in mt.args] == [f'{u(g)}.taxon', u(d_)] and not mt.keywords
+        rep.add('Q3', fi.site(lf['elt']), "each entry's taxon is what its own distance alone would assign: the default, or matching_taxon(its genome's taxon, its distance) passed explicitly", mt is None or explicit,
+                expected=f'matched_taxon left to its default, or matching_taxon({u(g)}.taxon, {u(d_)})', found=u(mt) if mt not in (None, Ellipsis) else mt, stmt='entry taxon')
+        # the genomes classified and the genomes listed are the same sequence
+        cls_calls = [c for c in calls_in(fn) if m.resolve_call(fi, c) == 'gambit.classify.classify']
+        cls_args = [u(c03.strip_copies(res.deep(a, c03.stmt_of(fn, cls_calls[0])))) for a in cls_calls[0].args[:2]] if len(cls_calls) == 1 else None
+        rep.add('Q3', fi.site(cls_calls[0] if cls_calls else lf['elt']), 'classification and the list index the same genome sequence and the same distance row',
+                cls_args == [f'{db}.genomes', dists], expected=f'classify({db}.genomes, {dists})', found=cls_args if cls_args is not None else [u(c)[:60] for c in cls_calls], stmt='shared operands')
+        return inner
+
+    evaluated = set()
+    try:
+        inner = structural_list()
+    except Undecided as why:
+        # the construction of the list is outside what the structural rules read: decide it by bounded evaluation of get_result_item
+        # itself (every distance row up to length 4 over three values with ties, several list lengths) - or stay undecided
+        if any(not o.ok for o in rep.obs):
+            raise
+        try:
+            evaluated = evaluate_list(ctx, fi)
+        except Undecided as why2:
+            raise Undecided(f'{why}; bounded evaluation: {why2}')
+        inner = None
     # Q2 (shared with C03)
     c03.classify_head(ctx, rule='Q2')
     gc = m.cls('gambit.classify.GenomeMatch')
@@ -265,10 +281,77 @@ def check(ctx):
     dv = get_kw(dflt, 'default') if isinstance(dflt, ast.Call) else None
     rep.add('Q4', qp.site(dflt), 'list length parameter defaults to a positive integer', isinstance(dv, ast.Constant) and isinstance(dv.value, int) and dv.value >= 1, expected='default >= 1', found=u(dv),
             stmt='report_closest default')
-    sweep(ctx, inner)
+    sweep(ctx, inner, evaluated)
 
 
-def sweep(ctx, armed_call=None):
+def evaluate_list(ctx, fi):
+    """Bounded evaluation of get_result_item with the C10 evaluator (the parsed source is interpreted, nothing is imported): for every
+    distance row of length 1..4 over {0.0, 0.25, 0.5} (all tie patterns) and list lengths 1, 2, 3, 5, the closest-genomes list must be the
+    (distance, reference position) prefix of length min(N, n) with exact distances, and its first entry the reported closest match.
+    Unstable sorts / partitions are modelled adversarially (ties in the worst order)."""
+    import itertools
+    from . import c10
+    rep, m = ctx.rep, ctx.model
+    ev = c10.Ev(m)
+    dom = c10.Domain(ev)
+    taxa = dom.forest((None, 0))          # no thresholds: nothing is ever matched, the walk code is not the subject here
+    dbci = m.cls('gambit.db.refdb.ReferenceDatabase')
+    qp = c10.ClassV(ev, m.cls('gambit.query.QueryParams'))
+    qi = c10.ClassV(ev, m.cls('gambit.query.QueryInput'))
+    n_eval, bad = 0, []
+    for n in (1, 2, 3, 4):
+        genomes = [dom.genome(i, taxa[1]) for i in range(n)]
+        db = c10.Rec(ev, dbci, dict(genomes=genomes), False)
+        for row in itertools.product((0.0, 0.25, 0.5), repeat=n):
+            for N in (1, 2, 3, 5):
+                params = qp(classify_strict=False, report_closest=N)
+                res = ev.run(fi, db, params, c10.NDArr(row), qi('x'))
+                n_eval += 1
+                want = sorted(range(n), key=lambda i: (row[i], i))[:N]
+                kind, v = res
+                got = None
+                if kind == 'ok' and isinstance(v, c10.Rec) and isinstance(v._f.get('closest_genomes'), list):
+                    got = []
+                    for x in v._f['closest_genomes']:
+                        g = x._f.get('genome') if isinstance(x, c10.Rec) else None
+                        got.append((genomes.index(g) if g in genomes else None, x._f.get('distance') if isinstance(x, c10.Rec) else None))
+                ok = got is not None and [i for i, _ in got] == want and all(d == row[i] for i, d in got)
+                if ok:
+                    cm = v._f['classifier_result']._f.get('closest_match') if isinstance(v._f.get('classifier_result'), c10.Rec) else None
+                    ok = cm is not None and cm._f.get('genome') is genomes[want[0]]
+                if not ok and len(bad) < 3:
+                    bad.append(f'dists={list(row)} N={N}: ' + (f'list {got}' if got is not None else c10._outcome(res)) + f', expected indices {want}')
+                elif not ok:
+                    bad.append(None)
+    rep.add('Q1', fi.site(), 'closest_genomes = the (distance, reference position) prefix of length min(N, n) with exact distances, first entry = the reported closest match '
+            '(bounded evaluation: every row up to length 4 over three values, N in 1, 2, 3, 5; unstable orderings modelled adversarially)', not bad,
+            expected='stable ascending order, prefix, no padding', found=(f'{len(bad)} of {n_eval} cases differ, e.g. ' + ' | '.join(b for b in bad if b)) if bad else f'holds on all {n_eval} evaluated cases', stmt='list by evaluation')
+    rep.info['Q1_bounded_evaluations'] = n_eval
+    rep.assumptions.append('C09-Q1/Q4 were decided by bounded evaluation of get_result_item (the list construction is outside the structural vocabulary): rows up to length 4 over three values with every tie pattern, list lengths 1, 2, 3, 5.')
+    if not bad:
+        # coverage side-condition over the functions of gambit.query / new helpers the evaluation entered
+        from ..inline import known_symbols
+        known = known_symbols()
+        unc = []
+        for q, f2 in sorted(ev.entered.items()):
+            if not (q.startswith('gambit.query.') or q not in known):
+                continue
+            for st in stmts_in(f2.node.body):
+                if isinstance(st, (ast.FunctionDef, ast.ClassDef, ast.Pass)) or (isinstance(st, ast.Expr) and isinstance(st.value, ast.Constant)):
+                    continue
+                if id(st) not in ev.seen_stmt:
+                    unc.append(f'{q}: statement never reached: `{u(st)[:60]}`')
+            for nd in ast.walk(f2.node):
+                if isinstance(nd, (ast.If, ast.While, ast.IfExp)) and not isinstance(nd.test, ast.Constant):
+                    got_ = ev.seen_test.get(id(nd))
+                    if got_ is not None and len(got_) < 2 and not (True in got_ and isinstance(nd, ast.If) and not nd.orelse):
+                        unc.append(f'{q}: test `{u(nd.test)[:60]}` is always {sorted(got_)[0]}')
+        if unc:
+            raise Undecided('the evaluated domain does not cover the code: ' + '; '.join(unc[:3]))
+    return set(ev.entered)
+
+
+def sweep(ctx, armed_call=None, evaluated=()):
     """Q5: classify every ordering call in the package."""
     rep, m = ctx.rep, ctx.model
     seen = []
@@ -296,6 +379,9 @@ def sweep(ctx, armed_call=None):
             if not holds(m, src):
                 raise Undecided(f'ordering call {txt} in {fi.qualname} ({fi.file}:{call.lineno}) is exempt only because {what}; its operand is now {u(src)[:60]}')
         seen.append(key)
+        if fi.qualname in evaluated and key not in EXEMPT and key not in ARMED:
+            rep.add('Q5', fi.site(call), f'ordering call {txt} is armed (its effect on the list was decided by the bounded evaluation of Q1)', True, found=txt, stmt=call)
+            continue
         if key in ARMED or call is armed_call:
             rep.add('Q5', fi.site(call), f'ordering call {txt} is armed (its order is observable in results; decided by Q1)', True, found=txt, stmt=call)
         elif key in EXEMPT:
